@@ -59,6 +59,9 @@ def str_method(B, st, s, name, args, kwargs, node):
     if name == "split":
         from . import strsplit
         return strsplit.split_model(B, st, s, args, kwargs, node)
+    if name == "count" and len(args) == 1 and isinstance(args[0], VStr) and z3.is_string_value(args[0].t) \
+            and len(args[0].t.as_string()) == 1:
+        return B.sp_count_char(st, [s, args[0]], {}, node)
     if name == "splitlines":
         res = eng.new_list(st, TStr)
         return res
